@@ -1,5 +1,10 @@
-(* C05 - no application-supplied string can break the line structure of any wire format.  Statements only. *)
-From V Require Import lib.PyBase lib.PyStr model.Validation model.Expo model.TextParser proofs.EscapeProofs.
+(* C05 - no application-supplied string can break the line structure of any wire format.  Statements only.
+   Models: model/Expo.v (both expositions), model/Graphite.v.  nlf s = number of line feeds in s.
+   The only hypotheses are about pieces no application supplies: the type word and CPython's repr of a float /
+   str() of a float timestamp hold no line feed (fam_clean / fam_clean_om; re-checked per case by the harness).
+   Names, label names, label values, help, units, exemplar labels are ARBITRARY strings. *)
+From V Require Import lib.PyBase lib.PyStr model.Utils model.Validation model.Expo model.Graphite
+  proofs.EscapeProofs proofs.LineProofs.
 Open Scope N_scope.
 
 (* the core of every line-structure argument: escaped text never contains a raw line feed *)
@@ -10,3 +15,41 @@ Print Assumptions C05_escape_no_lf.
 Theorem C05_help_escape_no_lf : forall s, ~ In LF (help_escape_chain s).
 Proof. exact (fun s => eq_ind_r (fun t => ~ In LF t) (help_escape_no_lf s) (help_escape_chain_eq s)). Qed.
 Print Assumptions C05_help_escape_no_lf.
+
+(* text format: the number of lines is two per family, one per sample, two per trailing gauge group -
+   whatever the supplied strings are: nothing can add, remove, split or merge a line *)
+Theorem C05_text_line_count : forall fams, Forall fam_clean fams ->
+  nlf (text_render fams)
+  = fold_right (fun f acc => (2 + length (f_samples f) + 2 * trailing_groups f + acc)%nat) 0%nat fams.
+Proof. exact nlf_text_render. Qed.
+Print Assumptions C05_text_line_count.
+
+(* OpenMetrics: two (three with a unit) per family, one per sample, and the output ends in '# EOF' LF *)
+Theorem C05_om_line_count : forall fams out, Forall fam_clean_om fams -> om_render true fams = Ok out ->
+  nlf out = (fold_right (fun f acc => (om_family_lines f + acc)%nat) 0%nat fams + 1)%nat
+  /\ exists body, out = body ++ S_EOF ++ [LF].
+Proof. exact nlf_om_render. Qed.
+Print Assumptions C05_om_line_count.
+
+(* Graphite: every name and label is sanitised to [A-Za-z0-9_-]; a line holds exactly one LF and two spaces
+   (the caller's prefix, str(float(value)) and the integer time are assumed free of both) *)
+Theorem C05_graphite_line : forall tags prefix name labels value now,
+  nlf prefix = 0%nat -> cnt SP prefix = 0%nat -> nlf value = 0%nat -> cnt SP value = 0%nat ->
+  nlf now = 0%nat -> cnt SP now = 0%nat ->
+  nlf (gr_line tags prefix name labels value now) = 1%nat /\
+  cnt SP (gr_line tags prefix name labels value now) = 2%nat.
+Proof. exact gr_line_structure. Qed.
+Print Assumptions C05_graphite_line.
+
+Theorem C05_sanitize_alphabet : forall s, Forall (fun c => graphite_ok c = true) (sanitize s).
+Proof. exact sanitize_chars. Qed.
+Print Assumptions C05_sanitize_alphabet.
+
+(* non-vacuity: a family whose every string is hostile satisfies the hypotheses; it renders as 3 lines *)
+Example C05_example :
+  let hostile := [LF; DQ; BS; LF] in
+  let f := {| f_name := hostile; f_doc := hostile; f_type := s2l "gauge"; f_unit := [];
+              f_samples := [{| s_name := hostile; s_labels := [(hostile, hostile)];
+                               s_value := FFin true (s2l "1.0"); s_ts_ms := None; s_ts_om := None; s_ex := None |}] |} in
+  fam_clean f /\ nlf (text_render [f]) = 3%nat.
+Proof. cbv zeta. split; [split; [reflexivity|repeat constructor]|vm_compute; reflexivity]. Qed.
